@@ -42,6 +42,13 @@ class GenResult:
         return "\n".join(parts)
 
 
+def names_item(diag: str, ident: str) -> bool:
+    """Does the diagnostics text name this item - as a whole word, not as part of a longer name (Bravo inside BravoKid)?"""
+    import re
+
+    return re.search(r"(?<![A-Za-z0-9_.\-])" + re.escape(str(ident)) + r"(?![A-Za-z0-9_\-]|\.[A-Za-z0-9_])", diag) is not None
+
+
 def _data_text(e: Any) -> str:
     d = getattr(e, "data", None)
     if d is None:
